@@ -90,7 +90,9 @@ def step(w, which="C01", start="outside", kinds="rd"):
         lp = st.lastPosition
         parked = alg.and_(alg.eq(P.x, px0), alg.eq(P.y, py0)) if start == "inside" else alg.and_(
             alg.eq(P.x, px0), alg.eq(P.y, py0))
-        inv = alg.and_(frame, modes, parked, lp is not None and alg.eq(P.z, lp.Z_AXIS.current), rec.ep_after)
+        # the Z clause belongs to C03 (Z restore on leaving); C01's obligations do not depend on it
+        zclause = (lp is not None and alg.eq(P.z, lp.Z_AXIS.current)) if which == "C03" else True
+        inv = alg.and_(frame, modes, parked, zclause, rec.ep_after)
     else:
         w.cover("ends-outside")
         inv = alg.and_(frame, modes, alg.eq(P.x, V.x), alg.eq(P.y, V.y), alg.eq(P.z, V.z), alg.not_(rec.ep_after))
